@@ -50,7 +50,7 @@ func (Driver) Batches(tier string) int {
 }
 
 const (
-	quickCases    = 160_000
+	quickCases    = 1_600_000
 	thoroughCases = 30_000_000
 )
 
